@@ -1574,6 +1574,9 @@ fn main() {
 				let e = &r.edits[k];
 				// edits outside the rendered ranges (e.g. attrs on unselected methods) are fine
 				let nested = r.edits.iter().enumerate().any(|(j, o)| j != k && r.done[j] && o.start <= e.start && e.end <= o.end && (o.end - o.start) > (e.end - e.start));
+				if nested && e.rule.starts_with('A') && ranges.iter().any(|(a, b)| e.start >= *a && e.end <= *b) {
+					die(&format!("annotation edit {} at {}..{} is swallowed by a lowering replacement (sidecar pattern too wide)", e.rule, e.start, e.end));
+				}
 				if !nested && ranges.iter().any(|(a, b)| e.start >= *a && e.end <= *b) {
 					die(&format!("internal: edit {:?} at {}..{} not applied (overlap)", e.rule, e.start, e.end));
 				}
